@@ -23,6 +23,7 @@ travel over the wires that are physically up.
   DpPacketOut events, flow tables read through OFPST_FLOW on the wire, buffer
   occupancy (`_packet_buffer`, no public accessor).
 """
+import os
 import select as _select
 
 from engine.core import Machinery
@@ -37,6 +38,7 @@ import pox.openflow.of_01 as of_01                            # noqa: E402
 import pox.openflow.libopenflow_01 as of                      # noqa: E402
 import pox.lib.recoco.recoco as recoco                        # noqa: E402
 from pox.lib.ioworker import IOWorker                         # noqa: E402
+from pox.lib.util import make_pinger                          # noqa: E402
 from pox.datapaths import switch as swmod                     # noqa: E402
 from pox.openflow import flow_table as ftmod                  # noqa: E402
 from pox.lib.packet.ethernet import ethernet                  # noqa: E402
@@ -116,6 +118,12 @@ class Net(object):
     hub = sched._selectHub
     self.sched, self.hub = sched, hub
     hub._select_func = self._vselect
+    if getattr(hub, "_x03_pid", None) != os.getpid():
+      # forked replay / driver workers inherit ONE pinger pipe: a wake-up byte written in one process can be
+      # swallowed by another, and SelectHub only adopts newly registered timers when it sees the pinger
+      # readable - timers would silently never fire.  Every process gets its own pinger.
+      hub._pinger = make_pinger()
+      hub._x03_pid = os.getpid()
     sched._ready.clear()
     for t in list(hub._tasks):
       if isinstance(t, recoco.Timer):
@@ -200,6 +208,9 @@ class Net(object):
   # ---------------------------------------------------------------- time
   def _vselect(self, r, w, x, timeout):
     ro, wo, xo = _select.select(list(r), list(w), list(x), 0)
+    if not (ro or wo or xo) and not self.hub._incoming.empty():
+      self.hub._pinger.ping()                       # registered timers waiting to be adopted: wake the hub
+      ro, wo, xo = _select.select(list(r), list(w), list(x), 0)
     if ro or wo or xo:
       return ro, wo, xo
     if timeout is None or clock.now + timeout > self._target:
